@@ -36,6 +36,9 @@ def project_fold(unfolded, groups, folded):
     if len(flat) > MAX_FOLD_NODES:
         return None
     idx = {m: i + 1 for i, m in enumerate(flat)}
+    # folding a group of layers with sub-modules (evidence layers) folds the wrapped layers through
+    # the same function: those nested groups are not layers of the circuit
+    groups = [g for g in groups if all(m in idx for m in g)]
     keys = []                      # key ids by equality of the settings tuples
 
     def key_of(m):
